@@ -73,6 +73,11 @@ CHECKS = {
             "a wrapper obeying the session rules, and per-command timeout/dialogs equal to the matching rule chain of generated deploy rulebooks; CliDeployerJob.parse_result is driven "
             "with a harness driver to check that what it shows is what it sends.",
             "Trusted: R7 (vf/ref/deploy.py), the wrapper rule table. Trees with duplicate sibling rows are outside the stated domain (counted, not judged).", "4/C09"),
+    "C10": ("reference interpreter of generator programs + R3 coverage/exclusivity oracle vs real PartialGenerator classes run through the production front end",
+            "Generator programs (data) are executed by real dynamically created PartialGenerator subclasses (real block/block_if/multiblock API, tuple and multi-line yields) "
+            "through _old_new_per_device, and by a reference interpreter; the outcome class (GeneratorError / AclNotExclusiveError / ok) and, when ok, the resulting tree are "
+            "compared with what the reference ACL model predicts; counts per outcome class must all be > 0.",
+            "Trusted: reference interpreter and R3. Cases where ideal coverage and the documented winner rule disagree are skipped (C06 findings).", "4/C10"),
     "C11": ("reference-model monitor: independent reader of the emitted VLAN commands folds them over the old set (set simulator) on real patches from the shipped rulebooks",
             "For every ordered pair of subsets of a small universe and every splitting of each set over config lines, the real _diff_and_patch with the shipped huawei/cisco/nexus "
             "rulebooks produces commands that an independent reader interprets as add/remove/remove-all/none; folded over the old set they must yield the new set and never drop a "
